@@ -23,6 +23,7 @@ import (
 
 	proxyv1alpha1 "github.com/kubewharf/kubegateway/pkg/apis/proxy/v1alpha1"
 	"github.com/kubewharf/kubegateway/pkg/apis/proxy/v1alpha1/validation"
+	"github.com/kubewharf/kubegateway/pkg/clusters"
 	"github.com/kubewharf/kubegateway/pkg/clusters/features"
 	"github.com/kubewharf/kubegateway/pkg/syncqueue"
 
@@ -53,9 +54,17 @@ func mif(n string, m int32) proxyv1alpha1.FlowControlSchema {
 }
 
 var dims = []dimension{
-	{"servers", []string{"e1", "e1+e2", "e2", "e1(disabled)+e2"}, func(o *proxyv1alpha1.UpstreamCluster, v string) {
-		t := true
+	{"servers", []string{"e1", "e1+e2", "e2", "e1(disabled)+e2", "e2+e1", "e1+e2(disabled)", "e1(disabled)+e2(disabled)", "e1(flag=false)+e2"}, func(o *proxyv1alpha1.UpstreamCluster, v string) {
+		t, no := true, false
 		switch v {
+		case "e2+e1":
+			o.Spec.Servers = []proxyv1alpha1.UpstreamClusterServer{{Endpoint: e2}, {Endpoint: e1}}
+		case "e1+e2(disabled)":
+			o.Spec.Servers = []proxyv1alpha1.UpstreamClusterServer{{Endpoint: e1}, {Endpoint: e2, Disabled: &t}}
+		case "e1(disabled)+e2(disabled)":
+			o.Spec.Servers = []proxyv1alpha1.UpstreamClusterServer{{Endpoint: e1, Disabled: &t}, {Endpoint: e2, Disabled: &t}}
+		case "e1(flag=false)+e2":
+			o.Spec.Servers = []proxyv1alpha1.UpstreamClusterServer{{Endpoint: e1, Disabled: &no}, {Endpoint: e2}}
 		case "e1":
 			o.Spec.Servers = []proxyv1alpha1.UpstreamClusterServer{{Endpoint: e1}}
 		case "e1+e2":
@@ -66,7 +75,7 @@ var dims = []dimension{
 			o.Spec.Servers = []proxyv1alpha1.UpstreamClusterServer{{Endpoint: e1, Disabled: &t}, {Endpoint: e2}}
 		}
 	}},
-	{"policies", []string{"P1", "P2", "P1+P2", "P1[e1]", "P1:s"}, func(o *proxyv1alpha1.UpstreamCluster, v string) {
+	{"policies", []string{"P1", "P2", "P1+P2", "P1[e1]", "P1:s", "P2+P1", "P1[e2]", "P1[e1,e2]", "P1:t", "P1(log)", "P2(nolog)+P1"}, func(o *proxyv1alpha1.UpstreamCluster, v string) {
 		p1 := proxyv1alpha1.DispatchPolicy{Rules: []proxyv1alpha1.DispatchPolicyRule{rule(func(r *proxyv1alpha1.DispatchPolicyRule) { r.Resources = []string{"pods"} })}, Strategy: proxyv1alpha1.RoundRobin}
 		p2 := proxyv1alpha1.DispatchPolicy{Rules: []proxyv1alpha1.DispatchPolicyRule{rule(func(r *proxyv1alpha1.DispatchPolicyRule) { r.Verbs = []string{"get"} })}, Strategy: proxyv1alpha1.RoundRobin, LogMode: proxyv1alpha1.LogOn}
 		switch v {
@@ -82,10 +91,45 @@ var dims = []dimension{
 		case "P1:s":
 			p1.FlowControlSchemaName = "s"
 			o.Spec.DispatchPolicies = []proxyv1alpha1.DispatchPolicy{p1}
+		case "P2+P1":
+			o.Spec.DispatchPolicies = []proxyv1alpha1.DispatchPolicy{p2, p1}
+		case "P1[e2]":
+			p1.UpstreamSubset = []string{e2}
+			o.Spec.DispatchPolicies = []proxyv1alpha1.DispatchPolicy{p1}
+		case "P1[e1,e2]":
+			p1.UpstreamSubset = []string{e1, e2}
+			o.Spec.DispatchPolicies = []proxyv1alpha1.DispatchPolicy{p1}
+		case "P1:t":
+			p1.FlowControlSchemaName = "t"
+			o.Spec.DispatchPolicies = []proxyv1alpha1.DispatchPolicy{p1}
+		case "P1(log)":
+			p1.LogMode = proxyv1alpha1.LogOn
+			o.Spec.DispatchPolicies = []proxyv1alpha1.DispatchPolicy{p1}
+		case "P2(nolog)+P1":
+			p2.LogMode = proxyv1alpha1.LogOff
+			o.Spec.DispatchPolicies = []proxyv1alpha1.DispatchPolicy{p2, p1}
 		}
 	}},
-	{"flowcontrol", []string{"none", "s:mif1", "s:mif2", "s:tb", "s:exempt", "s+t"}, func(o *proxyv1alpha1.UpstreamCluster, v string) {
+	{"flowcontrol", []string{"none", "s:mif1", "s:mif2", "s:tb", "s:exempt", "s+t", "t", "t+s", "s:mif1(local)", "s:mif1(globalCount)", "s:tb(qps2)", "s:tb(burst3)"}, func(o *proxyv1alpha1.UpstreamCluster, v string) {
+		tbs := func(q, b int32) proxyv1alpha1.FlowControl {
+			return proxyv1alpha1.FlowControl{Schemas: []proxyv1alpha1.FlowControlSchema{{Name: "s", FlowControlSchemaConfiguration: proxyv1alpha1.FlowControlSchemaConfiguration{TokenBucket: &proxyv1alpha1.TokenBucketFlowControlSchema{QPS: q, Burst: b}}}}}
+		}
 		switch v {
+		case "t":
+			o.Spec.FlowControl = proxyv1alpha1.FlowControl{Schemas: []proxyv1alpha1.FlowControlSchema{mif("t", 3)}}
+		case "t+s":
+			o.Spec.FlowControl = proxyv1alpha1.FlowControl{Schemas: []proxyv1alpha1.FlowControlSchema{mif("t", 3), mif("s", 1)}}
+		case "s:mif1(local)", "s:mif1(globalCount)":
+			sc := mif("s", 1)
+			sc.Strategy = proxyv1alpha1.LimitStrategy(strings.TrimSuffix(strings.TrimPrefix(v, "s:mif1("), ")"))
+			if sc.Strategy == proxyv1alpha1.GlobalCountLimit {
+				sc.GlobalMaxRequestsInflight = &proxyv1alpha1.MaxRequestsInflightFlowControlSchema{Max: 5}
+			}
+			o.Spec.FlowControl = proxyv1alpha1.FlowControl{Schemas: []proxyv1alpha1.FlowControlSchema{sc}}
+		case "s:tb(qps2)":
+			o.Spec.FlowControl = tbs(2, 2)
+		case "s:tb(burst3)":
+			o.Spec.FlowControl = tbs(1, 3)
 		case "none":
 			o.Spec.FlowControl = proxyv1alpha1.FlowControl{}
 		case "s:mif1":
@@ -143,10 +187,14 @@ var dims = []dimension{
 			o.Spec.SecureServing.ClientCAData = matA.CAPEM
 		}
 	}},
-	{"names", []string{"none", "x", "y"}, func(o *proxyv1alpha1.UpstreamCluster, v string) {
+	{"names", []string{"none", "x", "y", "x+y", "y+x", "X"}, func(o *proxyv1alpha1.UpstreamCluster, v string) {
 		switch v {
 		case "none":
 			o.Spec.SecureServing.ServerNames = nil
+		case "x+y":
+			o.Spec.SecureServing.ServerNames = []string{"x", "y"}
+		case "y+x":
+			o.Spec.SecureServing.ServerNames = []string{"y", "x"}
 		default:
 			o.Spec.SecureServing.ServerNames = []string{v}
 		}
@@ -225,7 +273,9 @@ func fingerprint(r *ctlrig.Rig, cluster string) []string {
 			}
 		}
 		// endpoints are unhealthy in this rig (no upstream is running): the upstream set is read from the picker by marking healthy
-		fp = append(fp, fmt.Sprintf("route %s %s: fc=%s fctype=%s log=%v", a.GetVerb(), a.GetResource(), p.FlowControlName(), p.FlowControl().String(), p.EnableLog()))
+		set, strat := clusters.VerifPickerUpstreams(p)
+		sort.Strings(set) // the property speaks of the endpoint SET of a route; the order picks rotate in is C14's business
+		fp = append(fp, fmt.Sprintf("route %s %s: fc=%s fctype=%s log=%v upstreams=%v strategy=%s", a.GetVerb(), a.GetResource(), p.FlowControlName(), p.FlowControl().String(), p.EnableLog(), set, strat))
 	}
 	for _, n := range []string{"s", "t"} {
 		fc := ci.GetFlowSchema(n)
@@ -351,7 +401,19 @@ var invalidSkipped int
 
 var unboundedRequeue = true // set from the queue conformance run
 
+// core: how many leading values of a dimension the multi-dimension specs use (the single-dimension spec of each
+// dimension uses all of them: shapes of a change - reordered, removed, flag spelled out - are letters of their own)
+var core = map[string]int{"servers": 4, "policies": 5, "flowcontrol": 6, "names": 3}
+
+func specFull(dimFilter map[string]bool, name string) xstate.Spec {
+	return specWith(dimFilter, name, false)
+}
+
 func spec(dimFilter map[string]bool, name string) xstate.Spec {
+	return specWith(dimFilter, name, dimFilter == nil || len(dimFilter) > 1)
+}
+
+func specWith(dimFilter map[string]bool, name string, coreOnly bool) xstate.Spec {
 	return xstate.Spec{
 		Name: name,
 		New: func() interface{} {
@@ -364,7 +426,11 @@ func spec(dimFilter map[string]bool, name string) xstate.Spec {
 				if dimFilter != nil && !dimFilter[d.name] {
 					continue
 				}
-				for _, v := range d.values {
+				values := d.values
+				if n := core[d.name]; coreOnly && n > 0 {
+					values = values[:n]
+				}
+				for _, v := range values {
 					if s.latestA != nil && s.cur[d.name] == v {
 						continue
 					}
@@ -568,7 +634,16 @@ func main() {
 	if c.ReplayFile() != "" {
 		xstate.ReplayIfAsked(c, specs)
 	}
+	// the coupled dimensions once more with their full alphabets (shallower)
+	fullPairs := []xstate.Spec{specFull(map[string]bool{"servers": true, "policies": true}, "full-servers+policies"), specFull(map[string]bool{"flowcontrol": true, "policies": true}, "full-flowcontrol+policies"),
+		specFull(map[string]bool{"names": true, "tls": true}, "full-names+tls")}
+	if c.ReplayFile() != "" {
+		xstate.ReplayIfAsked(c, fullPairs)
+	}
 	var tasks []ev.Task
+	for _, sp := range fullPairs {
+		tasks = append(tasks, xstate.Tasks(c, sp, c.Pick(3, 4), 8)...)
+	}
 	tasks = append(tasks, ev.Task{Name: "queue-conformance", Run: func() { queueConformance(c) }})
 	tasks = append(tasks, xstate.Tasks(c, all, c.Pick(3, 4), 32)...)
 	for _, sp := range specs[1:] {
